@@ -44,6 +44,12 @@ type Prop struct {
 	WatchdogQuick, WatchdogThorough int
 	// Memory cap per worker in MB (ulimit -v); 0 = default 6000.
 	MemMB int
+	// HangSeconds > 0: a single case in flight for longer than this many
+	// seconds of wall clock is reported as a violation ("does not terminate").
+	// Only for checks whose cases are known to be tiny (the reference model
+	// finished the same program within its step budget): the margin between
+	// the normal case time (< 10 ms) and this limit must be >= 1000x.
+	HangSeconds int
 }
 
 var registry = map[string]*Prop{}
@@ -98,6 +104,8 @@ type Ctx struct {
 	rep      Report
 	hashes   map[uint64]struct{}
 	journal  *os.File
+	inflight []byte
+	since    time.Time
 	findings []Finding
 	maxViol  int
 	replay   bool
@@ -142,6 +150,9 @@ func (c *Ctx) Begin(desc any) {
 	if err != nil {
 		b = []byte(fmt.Sprintf("%q", fmt.Sprint(desc)))
 	}
+	c.mu.Lock()
+	c.inflight, c.since = b, time.Now()
+	c.mu.Unlock()
 	var hdr [8]byte
 	binary.LittleEndian.PutUint64(hdr[:], uint64(len(b)))
 	c.journal.WriteAt(append(hdr[:], b...), 0)
@@ -159,6 +170,7 @@ func (c *Ctx) BeginRaw(kind string, b []byte) {
 // nontrivial states whether it counts by the property's rule.
 func (c *Ctx) End(nontrivial bool, key string) {
 	c.mu.Lock()
+	c.inflight = nil
 	c.rep.Evaluations++
 	if nontrivial {
 		h := fnv.New64a()
@@ -346,7 +358,7 @@ func RunWorker(id, tier string, seed int64, shard, nshards int, out, root string
 	wg.Add(1)
 	go func() {
 		defer wg.Done()
-		t := time.NewTicker(5 * time.Second)
+		t := time.NewTicker(2 * time.Second)
 		defer t.Stop()
 		for {
 			select {
@@ -354,6 +366,22 @@ func RunWorker(id, tier string, seed int64, shard, nshards int, out, root string
 				return
 			case <-t.C:
 				c.writeReport(out, false)
+				if p.HangSeconds > 0 {
+					c.mu.Lock()
+					stuck := c.inflight != nil && time.Since(c.since) > time.Duration(p.HangSeconds)*time.Second
+					var cs json.RawMessage
+					if stuck {
+						cs = append(json.RawMessage(nil), c.inflight...)
+						c.rep.Violations = append(c.rep.Violations, Violation{
+							What: fmt.Sprintf("the case did not finish within %d s of wall clock although such cases normally take milliseconds (non-termination)", p.HangSeconds), Case: cs})
+						c.inflight = nil
+					}
+					c.mu.Unlock()
+					if stuck {
+						c.writeReport(out, false)
+						os.Exit(3)
+					}
+				}
 			}
 		}
 	}()
